@@ -311,9 +311,6 @@ private def regRun (kind : RegKind) (mode : Option Mode) (red : Reduction) (inp 
       let osz := match bes with
         | (_, o) :: _ => o
         | [] => f.sz
-      -- functional.py:elasticity_loss @1547: `zeros((N, 1) + u.shape[2:])` then in-place `add_` of the derivatives
-      let isElast : Bool := match kind with | .elasticity _ => true | _ => false
-      if isElast then elasticityShapeCheck f.sz osz
       -- derivative dictionaries first (values, computed once per batch item), then the point evaluators
       let dicts : List (List (FKey D × Option (RArr D)) × List (List (DKey D × Option (RArr D)))) :=
         (bes.zip (List.range f.N)).map (fun ((be, _), b) =>
